@@ -22,6 +22,26 @@ pub fn snf_small(s: &mut Src) -> R {
     Ok(())
 }
 
+/// the same over Z[i] (units other than +-1 exercise the inverse bookkeeping): 2x2, small entries
+pub fn snf_gauss_small(s: &mut Src) -> R {
+    use yui::GaussInt;
+    type G = GaussInt<i64>;
+    let mut e = vec![];
+    for _ in 0..4 { e.push(G::new(s.small(-4, 4), s.small(-4, 4))); }
+    reach!();
+    let a = Mat::from_data((2, 2), e);
+    let r = snf(&a, [true; 4]);
+    let d = r.result().clone();
+    let (p, pinv, q, qinv) = (r.p().unwrap(), r.pinv().unwrap(), r.q().unwrap(), r.qinv().unwrap());
+    ob!(&(p * &a) * q == d, "snf<Z[i]>::D==P.A.Q");
+    ob!(p * pinv == Mat::id(2) && pinv * p == Mat::id(2), "snf<Z[i]>::P.Pinv==I");
+    ob!(q * qinv == Mat::id(2) && qinv * q == Mat::id(2), "snf<Z[i]>::Q.Qinv==I");
+    ob!(d.is_diag(), "snf<Z[i]>::D-is-diagonal");
+    use yui::Ring;
+    ob!(d[(0, 0)].normalized() == d[(0, 0)] && d[(1, 1)].normalized() == d[(1, 1)], "snf<Z[i]>::diagonal-normalised");
+    Ok(())
+}
+
 // C10 (LLL) — witness search / replay on the real crate: 3x3 integer matrices of full rank, small
 // entries.  B = P A with det P = +-1, B size-reduced (|mu_ij| <= 1/2) and Lovasz-reduced for alpha = 3/4,
 // checked with exact rational Gram-Schmidt in i128.
@@ -73,4 +93,4 @@ pub fn lll_small(s: &mut Src) -> R {
     }
     Ok(())
 }
-crate::harness_table!(SNF: snf_small [unwind 4], lll_small [unwind 4]);
+crate::harness_table!(SNF: snf_small [unwind 4], snf_gauss_small [unwind 4], lll_small [unwind 4]);
